@@ -1232,6 +1232,14 @@ pub fn families(tier: &str) -> Vec<Box<dyn Family>> {
         v.push(Box::new(Sanitized::all(Box::new(TokenMutations::new()))));
         v.push(Box::new(Sanitized::all(Box::new(CharMutations::new(false)))));
         v.push(Box::new(Sanitized::all(Box::new(TokenSoups::new(2, 0..10)))));
+        v.push(Box::new(Sanitized::all(Box::new(Soups2 { n: 2 }))));
+        v.push(Box::new(Sanitized::all(Box::new(TypeForms::new()))));
+        v.push(Box::new(Sanitized::all(Box::new(WhitespaceKinds))));
+        // ... and the instrumented BINARY (the sibling of the instrumented harness): directory walks, the request
+        // builder on the enum-boundary cases and on comments with links
+        v.push(Box::new(Sanitized::all(Box::new(FileArrangements))));
+        v.push(Box::new(Sanitized::all(Box::new(FilesThroughBinary { inner: super::c04::families("quick").remove(3), stride: 1 }))));
+        v.push(Box::new(Sanitized::all(Box::new(FilesThroughBinary { inner: super::c16::families("quick").remove(1), stride: 1 }))));
     }
     // C04's rule-boundary cases (and, thorough, C02's programs and C16's comments) through the binary with a generator
     for (i, f) in super::c04::families("quick").into_iter().enumerate() {
